@@ -76,11 +76,14 @@ type Budget struct {
 	// is held as a whole; persist(n) = one held Ready persisted, sent, applied, advanced
 	Plags    int `json:"persist_lags,omitempty"`
 	Persists int `json:"persists,omitempty"`
+	// proposeBatch(n, shape): one MsgProp carrying several entries stepped into n (see evBatch)
+	Batches int `json:"batches,omitempty"`
 }
 
 type used struct {
 	Proposals, Drops, Dups, Crashes, Heartbeats, Compacts, ConfChanges, Transfers, Expires, Delays, Lags, Applies uint8
 	Plags, Persists                                                                                               uint8
+	Batches                                                                                                       uint8
 }
 
 // Event kinds.
@@ -140,31 +143,88 @@ const (
 	evPLag
 	evPersist
 	evUnplag
+	// Batch proposal. propose / proposeConf enter the library through RawNode.Propose /
+	// ProposeConfChange: one entry per MsgProp. The API also accepts a MsgProp that carries
+	// SEVERAL entries (RawNode.Step(pb.Message{Type: MsgProp, From: id, Entries: ...}), what
+	// raft.Node.Step does with a proposal an application forwards or batches itself; a follower
+	// passes such a message on to the leader unchanged). evBatch steps one into node N: the A
+	// field is shape<<8 | conf-change variant (see bs* / cc*). The leader walks over the entries,
+	// keeps or neutralises every conf change on its own (pendingConfIndex bookkeeping) and
+	// appends the whole batch at once; with one entry per MsgApp (MaxSizePerMsg = 0) the batch is
+	// then replicated, committed and applied entry by entry.
+	evBatch
 	evKinds
 )
 
 var evNames = [...]string{"deliver", "drop", "dup", "campaign", "heartbeat", "propose", "crash", "restart", "compact", "proposeConf", "transferLeader", "leaseExpire", "isolate",
-	"delay", "dupDelayed", "release", "lag", "apply", "unlag", "plag", "persist", "unplag"}
-var evShort = [...]string{"D", "X", "U", "C", "H", "P", "K", "R", "S", "F", "T", "E", "I", "Y", "V", "Z", "L", "A", "N", "G", "B", "M"}
+	"delay", "dupDelayed", "release", "lag", "apply", "unlag", "plag", "persist", "unplag", "proposeBatch"}
+var evShort = [...]string{"D", "X", "U", "C", "H", "P", "K", "R", "S", "F", "T", "E", "I", "Y", "V", "Z", "L", "A", "N", "G", "B", "M", "O"}
 
 // compile-time checks: one name per event kind
 var _ = [1]struct{}{}[len(evNames)-int(evKinds)]
 var _ = [1]struct{}{}[len(evShort)-int(evKinds)]
 
 // Conf-change variants (A field of evConf). "J" is the joiner id (Members+1), "L" the last
-// initial member (Members), "J2" the second joiner (Members+2, only with Cfg.Joiners >= 2).
+// initial member (Members), "J2" the second joiner (Members+2, only with Cfg.Joiners >= 2),
+// "L-1" the last but one initial member (two successive single-node removals: L-1 and L).
 const (
 	ccAddV1 uint16 = iota
 	ccRemoveV1
 	ccAddLearner
-	ccJointImplicit // {add J, remove L}, auto-leave
-	ccJointExplicit // {add J, remove L}, explicit leave needed
-	ccLeaveJoint    // empty ConfChangeV2
-	ccAddV1Second   // add J2
+	ccJointImplicit  // {add J, remove L}, auto-leave
+	ccJointExplicit  // {add J, remove L}, explicit leave needed
+	ccLeaveJoint     // empty ConfChangeV2
+	ccAddV1Second    // add J2
+	ccRemoveV1Second // remove L-1 (only through an explicit Box.ConfVariants / Box.BatchConf list)
 	ccVariants
 )
 
-var ccNames = [...]string{"addV1(J)", "removeV1(L)", "addLearnerV2(J)", "jointImplicit(+J,-L)", "jointExplicit(+J,-L)", "leaveJoint", "addV1(J2)"}
+// ccDefaultVariants: a box without an explicit list of variants uses the variants below this
+// one (the alphabet of the boxes that were written before ccRemoveV1Second existed).
+const ccDefaultVariants = ccRemoveV1Second
+
+var ccNames = [...]string{"addV1(J)", "removeV1(L)", "addLearnerV2(J)", "jointImplicit(+J,-L)", "jointExplicit(+J,-L)", "leaveJoint", "addV1(J2)", "removeV1(L-1)"}
+
+// compile-time check: one name per variant
+var _ = [1]struct{}{}[len(ccNames)-int(ccVariants)]
+
+// ccNeedsJoiners returns how many joiner nodes a variant refers to.
+func ccNeedsJoiners(v uint16) int {
+	switch v {
+	case ccRemoveV1, ccRemoveV1Second, ccLeaveJoint:
+		return 0
+	case ccAddV1Second:
+		return 2
+	}
+	return 1
+}
+
+// Batch shapes (A>>8 of evBatch): the entry types of one multi-entry MsgProp. "normal" entries
+// carry the data "b<batch number>.<position>", every confChange of a batch is the variant in
+// the low byte of A.
+const (
+	bsNormalConf       uint16 = iota // [normal, confChange]
+	bsConfNormal                     // [confChange, normal]
+	bsNormalNormal                   // [normal, normal]
+	bsNormalConfNormal               // [normal, confChange, normal]
+	bsConfConf                       // [confChange, confChange]: the second one must be neutralised
+	bsShapes
+)
+
+var bsNames = [...]string{"[normal, confChange]", "[confChange, normal]", "[normal, normal]", "[normal, confChange, normal]", "[confChange, confChange]"}
+var bsTypes = [...][]bool{{false, true}, {true, false}, {false, false}, {false, true, false}, {true, true}} // true: conf change
+
+var _ = [1]struct{}{}[len(bsNames)-int(bsShapes)]
+var _ = [1]struct{}{}[len(bsTypes)-int(bsShapes)]
+
+func bsHasConf(shape uint16) bool {
+	for _, c := range bsTypes[shape] {
+		if c {
+			return true
+		}
+	}
+	return false
+}
 
 // Event is one transition label. N is the node the event acts on (receiver for deliver),
 // A is the message sequence number (deliver/drop/dup), the variant (proposeConf) or the
@@ -196,6 +256,7 @@ const (
 	inPLag
 	inPersist
 	inUnplag
+	inBatch
 )
 
 // input is one entry of a node's private input history. A node's state is a deterministic
@@ -205,8 +266,11 @@ type input struct {
 	msg  pb.Message // inStep
 	enc  []byte     // inStep: marshalled msg
 	data []byte     // inPropose
-	cc   uint16     // inProposeConf
+	cc   uint16     // inProposeConf, inBatch: conf-change variant
 	to   uint64     // inTransfer
+	// inBatch: shape of the batch and its number in the run (the data of its normal entries)
+	shape uint8
+	seqno uint8
 }
 
 type appliedEnt struct {
@@ -631,6 +695,8 @@ func (n *live) confChange(v uint16) pb.ConfChangeI {
 		return pb.ConfChange{Type: pb.ConfChangeAddNode, NodeID: j + 1}
 	case ccRemoveV1:
 		return pb.ConfChange{Type: pb.ConfChangeRemoveNode, NodeID: l}
+	case ccRemoveV1Second:
+		return pb.ConfChange{Type: pb.ConfChangeRemoveNode, NodeID: l - 1}
 	case ccAddLearner:
 		return pb.ConfChangeV2{Changes: []pb.ConfChangeSingle{{Type: pb.ConfChangeAddLearnerNode, NodeID: j}}}
 	case ccJointImplicit:
@@ -643,6 +709,25 @@ func (n *live) confChange(v uint16) pb.ConfChangeI {
 		return pb.ConfChangeV2{}
 	}
 	panic("bad conf change variant")
+}
+
+// batchEntries builds the entries of a multi-entry proposal: the normal entries carry
+// "b<batch number>.<position>", the conf changes are marshalled exactly like ProposeConfChange
+// does it (pb.MarshalConfChange).
+func (n *live) batchEntries(shape uint8, cc uint16, seqno uint8) []pb.Entry {
+	var ents []pb.Entry
+	for pos, isConf := range bsTypes[shape] {
+		if !isConf {
+			ents = append(ents, pb.Entry{Type: pb.EntryNormal, Data: []byte(fmt.Sprintf("b%d.%d", seqno, pos))})
+			continue
+		}
+		typ, data, err := pb.MarshalConfChange(n.confChange(cc))
+		if err != nil {
+			panic(err)
+		}
+		ents = append(ents, pb.Entry{Type: typ, Data: data})
+	}
+	return ents
 }
 
 // feed applies one input to the node: one call into the library plus the complete handling
@@ -700,6 +785,10 @@ func (n *live) feed(in *input) (eff effects) {
 		n.rn.Propose(in.data)
 	case inProposeConf:
 		n.rn.ProposeConfChange(n.confChange(in.cc))
+	case inBatch:
+		// what raft.Node.Step / Propose do with a proposal, but with several entries in the one
+		// MsgProp; a follower forwards the message to its leader, a node without a leader drops it
+		n.rn.Step(pb.Message{Type: pb.MsgProp, From: n.id, Entries: n.batchEntries(in.shape, in.cc, in.seqno)})
 	case inTransfer:
 		n.rn.TransferLeader(in.to)
 	case inExpire:
@@ -773,7 +862,15 @@ type node struct {
 	status   raft.Status
 	votes    []voteRec
 	elapsed  int
-	kb       []byte // canonical serialisation of this node (part of the state key)
+	// pendingConf is raft.pendingConfIndex, the leader's bookkeeping behind "only one conf change
+	// may be pending (in the log, but not yet applied) at a time": a conf change is accepted only
+	// if applied >= pendingConfIndex. In the library as it is, the value is a function of the
+	// leader's log and term (max of the last index at its election and the index of the last conf
+	// change it accepted or auto-proposed), so that writing it into the state key splits no
+	// state; a library in which that bookkeeping is off must not have such a state merged with
+	// the one a correct history leads to.
+	pendingConf uint64
+	kb          []byte // canonical serialisation of this node (part of the state key)
 
 	// apply lag
 	lag         bool   // the application applies asynchronously (survives a crash)
@@ -866,6 +963,7 @@ func freeze(n *live, parent *node, in *input, eff *effects, h hist) *node {
 			pk := peek(n.rn)
 			f.votes = pk.votes
 			f.elapsed = pk.electionElapsed
+			f.pendingConf = pk.pendingConf
 		}()
 	}
 	if in != nil && in.k == inCrash {
@@ -997,6 +1095,8 @@ func nextHist(h hist, in *input) hist {
 		d.Write(in.data)
 	case inProposeConf:
 		d.Write([]byte{byte(in.cc)})
+	case inBatch:
+		d.Write([]byte{in.shape, byte(in.cc), in.seqno})
 	case inTransfer:
 		d.Write([]byte{byte(in.to)})
 	}
@@ -1099,46 +1199,53 @@ type ledgerEnt struct {
 
 // Coverage flags of a transition.
 const (
-	fTwoLeaders        uint64 = 1 << iota // >= 2 live leaders (necessarily in different terms)
-	fTruncation                           // a persisted entry was replaced / the log got shorter
-	fCommitOlderTerm                      // commit index moved over an entry of an earlier term than the node's
-	fSnapSent                             // MsgSnap emitted
-	fSnapApplied                          // snapshot restored by a follower
-	fConfApplied                          // configuration entry applied (beyond bootstrap)
-	fJoint                                // some node is in a joint configuration
-	fLeaderStepDown                       // a leader left leadership in this event
-	fStaleTermMsg                         // delivered message carried a term below the receiver's
-	fRestartWithLog                       // restart of a node holding entries beyond bootstrap
-	fLeaderElected                        // a node became leader
-	fCommitAdvanced                       // ledger grew
-	fLearner                              // some node tracks a learner
-	fVoteRejected                         // a vote / pre-vote rejection was emitted
-	fPreVote                              // MsgPreVote emitted
-	fCheckQuorumDown                      // leader stepped down on a tick (CheckQuorum)
-	fTransfer                             // MsgTimeoutNow emitted
-	fCompact                              // compact(n) executed (snapshot taken at applied, log discarded up to it)
-	fCompactFollower                      // ... on a node that is not the leader
-	fCompacted                            // state property: some node's storage starts at a snapshot (index > 0)
-	fSnapDelivered                        // MsgSnap stepped by a live receiver
-	fSnapStale                            // ... whose index is at or below the receiver's commit index
-	fSnapBehindCompact                    // ... and below the receiver's own snapshot index, at a term the receiver accepts
-	fRestartCompacted                     // restart from a storage that starts at a snapshot
-	fReleased                             // a delayed message was released back into the pool
-	fWhileHeld                            // the event acted on a node that held a Ready (library called, no Ready cycle)
-	fCampaignBacklog                      // campaign on a node whose apply backlog contains committed conf changes
-	fCampaignRefused                      // ... and the library refused to start the election
-	fPageApplied                          // a held page of committed entries was applied (apply / unlag)
-	fCrashHeld                            // crash of a node that held a Ready
-	fSnapWhileHeld                        // MsgSnap stepped by a node that held a Ready (the held page may end up below the snapshot)
-	fReadyHeldWhole                       // persist lag: a Ready was handed out and is held as a whole (nothing persisted, sent, applied)
-	fWhileHeldWhole                       // persist lag: the event called the library on a node holding such a Ready
-	fTruncHeldWhole                       // persist lag: a MsgApp stepped by such a node replaced or cut unstable entries (conflict with a later-term leader)
-	fTruncMidHeldWhole                    // ... and the first replaced index lies strictly inside the unstable entries (truncateAndAppend's third case)
-	fTruncInReady                         // ... and inside the index range of the held Ready's Entries (the slots the application is about to persist)
-	fPersistRelease                       // persist lag: a held Ready was released (persist(n))
-	fCrashHeldWhole                       // persist lag: crash of a node holding an unpersisted Ready (lost entirely)
-	fSnapHeldWhole                        // persist lag: the Ready that is now held carries a snapshot (MsgSnap accepted, nothing installed yet)
-	fFlags             = iota
+	fTwoLeaders             uint64 = 1 << iota // >= 2 live leaders (necessarily in different terms)
+	fTruncation                                // a persisted entry was replaced / the log got shorter
+	fCommitOlderTerm                           // commit index moved over an entry of an earlier term than the node's
+	fSnapSent                                  // MsgSnap emitted
+	fSnapApplied                               // snapshot restored by a follower
+	fConfApplied                               // configuration entry applied (beyond bootstrap)
+	fJoint                                     // some node is in a joint configuration
+	fLeaderStepDown                            // a leader left leadership in this event
+	fStaleTermMsg                              // delivered message carried a term below the receiver's
+	fRestartWithLog                            // restart of a node holding entries beyond bootstrap
+	fLeaderElected                             // a node became leader
+	fCommitAdvanced                            // ledger grew
+	fLearner                                   // some node tracks a learner
+	fVoteRejected                              // a vote / pre-vote rejection was emitted
+	fPreVote                                   // MsgPreVote emitted
+	fCheckQuorumDown                           // leader stepped down on a tick (CheckQuorum)
+	fTransfer                                  // MsgTimeoutNow emitted
+	fCompact                                   // compact(n) executed (snapshot taken at applied, log discarded up to it)
+	fCompactFollower                           // ... on a node that is not the leader
+	fCompacted                                 // state property: some node's storage starts at a snapshot (index > 0)
+	fSnapDelivered                             // MsgSnap stepped by a live receiver
+	fSnapStale                                 // ... whose index is at or below the receiver's commit index
+	fSnapBehindCompact                         // ... and below the receiver's own snapshot index, at a term the receiver accepts
+	fRestartCompacted                          // restart from a storage that starts at a snapshot
+	fReleased                                  // a delayed message was released back into the pool
+	fWhileHeld                                 // the event acted on a node that held a Ready (library called, no Ready cycle)
+	fCampaignBacklog                           // campaign on a node whose apply backlog contains committed conf changes
+	fCampaignRefused                           // ... and the library refused to start the election
+	fPageApplied                               // a held page of committed entries was applied (apply / unlag)
+	fCrashHeld                                 // crash of a node that held a Ready
+	fSnapWhileHeld                             // MsgSnap stepped by a node that held a Ready (the held page may end up below the snapshot)
+	fReadyHeldWhole                            // persist lag: a Ready was handed out and is held as a whole (nothing persisted, sent, applied)
+	fWhileHeldWhole                            // persist lag: the event called the library on a node holding such a Ready
+	fTruncHeldWhole                            // persist lag: a MsgApp stepped by such a node replaced or cut unstable entries (conflict with a later-term leader)
+	fTruncMidHeldWhole                         // ... and the first replaced index lies strictly inside the unstable entries (truncateAndAppend's third case)
+	fTruncInReady                              // ... and inside the index range of the held Ready's Entries (the slots the application is about to persist)
+	fPersistRelease                            // persist lag: a held Ready was released (persist(n))
+	fCrashHeldWhole                            // persist lag: crash of a node holding an unpersisted Ready (lost entirely)
+	fSnapHeldWhole                             // persist lag: the Ready that is now held carries a snapshot (MsgSnap accepted, nothing installed yet)
+	fBatchStepped                              // a leader stepped a MsgProp with several entries (its own or one forwarded by a follower) and appended them
+	fBatchForwarded                            // a non-leader stepped a multi-entry MsgProp and forwarded it to its leader
+	fBatchDropped                              // a multi-entry MsgProp was dropped (no leader known, leader not a member, transfer in progress)
+	fConfAccepted                              // a leader appended a proposed conf change as a conf-change entry
+	fConfDowngraded                            // a leader turned a proposed conf change into an empty normal entry (refused: one is pending / joint rules)
+	fConfRefusedBatchWindow                    // ... while the pending conf change sits right behind an already applied normal entry of its own batch
+	fTwoConfUnapplied                          // state property: some leader's log holds >= 2 conf changes above its applied index (all but the first inherited from earlier terms)
+	fFlags                  = iota
 )
 
 var flagNames = [...]string{"two_live_leaders_in_different_terms", "conflict_truncations", "commits_of_earlier_term_entries", "snapshots_sent", "snapshots_applied",
@@ -1151,7 +1258,11 @@ var flagNames = [...]string{"two_live_leaders_in_different_terms", "conflict_tru
 	"readys_held_before_persisting", "inputs_stepped_while_an_unpersisted_ready_was_held", "msgapps_that_truncated_unstable_entries_while_an_unpersisted_ready_was_held",
 	"msgapps_that_truncated_in_the_middle_of_the_unstable_entries_while_an_unpersisted_ready_was_held",
 	"msgapps_that_truncated_inside_the_entries_of_the_held_unpersisted_ready",
-	"unpersisted_readys_released", "crashes_while_an_unpersisted_ready_was_held", "readys_with_a_snapshot_held_before_persisting"}
+	"unpersisted_readys_released", "crashes_while_an_unpersisted_ready_was_held", "readys_with_a_snapshot_held_before_persisting",
+	"batch_proposals_appended_by_a_leader", "batch_proposals_forwarded_by_a_follower", "batch_proposals_dropped",
+	"proposals_in_which_the_leader_accepted_a_conf_change", "proposals_in_which_the_leader_turned_a_conf_change_into_an_empty_normal_entry",
+	"conf_changes_refused_while_the_pending_one_sits_behind_an_applied_normal_entry_of_its_own_batch",
+	"leader_with_two_or_more_conf_changes_above_its_applied_index"}
 
 // compile-time check: one name per flag
 var _ = [1]struct{}{}[len(flagNames)-fFlags]
@@ -1360,6 +1471,9 @@ func (c *cluster) step(e Event) *cluster {
 		if n.heldWhole && g.heldWhole && p.m.Type == pb.MsgApp {
 			d.flags |= unstableTruncated(n, g)
 		}
+		if p.m.Type == pb.MsgProp {
+			d.flags |= proposalOutcome(n, g, p.m.Entries)
+		}
 		d.absorb(g, n, e)
 		return d
 	}
@@ -1433,10 +1547,7 @@ func (c *cluster) step(e Event) *cluster {
 		}
 		in = input{k: inCompact}
 	case evConf:
-		if !n.isLeader() || int(u.ConfChanges) >= c.bud.ConfChanges || e.A >= ccVariants || c.cfg.joiners() == 0 {
-			return nil
-		}
-		if e.A == ccAddV1Second && c.cfg.joiners() < 2 {
+		if !n.isLeader() || int(u.ConfChanges) >= c.bud.ConfChanges || e.A >= ccVariants || c.cfg.joiners() < ccNeedsJoiners(e.A) {
 			return nil
 		}
 		joint := len(n.status.Config.Voters[1]) > 0
@@ -1445,6 +1556,19 @@ func (c *cluster) step(e Event) *cluster {
 		}
 		u.ConfChanges++
 		in = input{k: inProposeConf, cc: e.A}
+	case evBatch:
+		shape, v := e.A>>8, e.A&0xff
+		if !n.alive || int(u.Batches) >= c.bud.Batches || shape >= bsShapes || v >= ccVariants {
+			return nil
+		}
+		if bsHasConf(shape) && c.cfg.joiners() < ccNeedsJoiners(v) {
+			return nil
+		}
+		if !bsHasConf(shape) && v != 0 {
+			return nil
+		}
+		u.Batches++
+		in = input{k: inBatch, shape: uint8(shape), cc: v, seqno: u.Batches}
 	case evTransfer:
 		if !n.isLeader() || int(u.Transfers) >= c.bud.Transfers || uint64(e.A) == n.id || c.node(uint64(e.A)) == nil {
 			return nil
@@ -1512,8 +1636,97 @@ func (c *cluster) step(e Event) *cluster {
 	if fl&fCampaignBacklog != 0 && g.alive && g.status.Term == n.status.Term && g.status.RaftState == n.status.RaftState {
 		d.flags |= fCampaignRefused
 	}
+	switch e.K {
+	case evConf:
+		d.flags |= proposalOutcome(n, g, []pb.Entry{{Type: ccEntryType(in.cc)}})
+	case evBatch:
+		ents := make([]pb.Entry, len(bsTypes[in.shape]))
+		for i, isConf := range bsTypes[in.shape] {
+			if isConf {
+				ents[i].Type = ccEntryType(in.cc)
+			}
+		}
+		d.flags |= proposalOutcome(n, g, ents)
+	}
 	d.absorb(g, n, e)
 	return d
+}
+
+// proposalOutcome classifies what a node did with a proposal (a MsgProp it stepped, local or
+// delivered): coverage flags only. A leader appends the entries behind its last index, having
+// turned every conf change it refuses into an empty normal entry; a follower forwards the
+// message to its leader; anybody else drops it. Only the entry types of `ents` are read.
+func proposalOutcome(before, after *node, ents []pb.Entry) uint64 {
+	var fl uint64
+	multi := len(ents) > 1
+	if !after.alive || after.eff == nil || after.eff.panicVal != "" {
+		return 0
+	}
+	if !before.isLeader() {
+		if multi {
+			fwd := false
+			for i := range after.eff.msgs {
+				if m := &after.eff.msgs[i].m; m.Type == pb.MsgProp && len(m.Entries) == len(ents) {
+					fwd = true
+				}
+			}
+			if !fwd && after.held {
+				// the forwarded message waits inside the library with everything else
+				fwd = len(after.in.msgs) > len(before.in.msgs)
+			}
+			if fwd {
+				fl |= fBatchForwarded
+			} else {
+				fl |= fBatchDropped
+			}
+		}
+		return fl
+	}
+	base := before.memLastIndex()
+	if after.memLastIndex() < base+uint64(len(ents)) {
+		if multi {
+			fl |= fBatchDropped
+		}
+		return fl
+	}
+	if multi {
+		fl |= fBatchStepped
+	}
+	for i := range ents {
+		if ents[i].Type == pb.EntryNormal {
+			continue
+		}
+		got, ok := after.memEntryAt(base + 1 + uint64(i))
+		switch {
+		case !ok:
+		case got.Type == ents[i].Type:
+			fl |= fConfAccepted
+		case got.Type == pb.EntryNormal && len(got.Data) == 0:
+			fl |= fConfDowngraded
+			// the window of interest: the conf change that is still pending came in one MsgProp
+			// with a normal entry in front of it, and that normal entry is applied already
+			for j := before.status.Applied + 1; j <= base; j++ {
+				pe, ok := before.memEntryAt(j)
+				if !ok || pe.Type == pb.EntryNormal {
+					continue
+				}
+				if prev, ok := before.memEntryAt(j - 1); ok && j-1 <= before.status.Applied && prev.Term == pe.Term && bytes.HasPrefix(prev.Data, []byte("b")) {
+					fl |= fConfRefusedBatchWindow
+				}
+				break
+			}
+		}
+	}
+	return fl
+}
+
+// ccEntryType is the entry type a conf-change variant is proposed as.
+func ccEntryType(v uint16) pb.EntryType {
+	switch v {
+	case ccAddLearner, ccJointImplicit, ccJointExplicit, ccLeaveJoint:
+		return pb.EntryConfChangeV2
+	}
+	return pb.EntryConfChange
 }
 
 var zeroNode = &node{}
@@ -1692,6 +1905,20 @@ func (c *cluster) describe(e Event) string {
 		return s
 	case evConf:
 		return fmt.Sprintf("proposeConf(%d, %s)", e.N, ccNames[e.A])
+	case evBatch:
+		shape, v := e.A>>8, e.A&0xff
+		if shape >= bsShapes || v >= ccVariants {
+			return fmt.Sprintf("proposeBatch(%d, ?)", e.N)
+		}
+		what := bsNames[shape]
+		if bsHasConf(shape) {
+			what += ", confChange = " + ccNames[v]
+		}
+		s := fmt.Sprintf("proposeBatch(%d, b%d %s) [one MsgProp with %d entries]", e.N, c.used.Batches+1, what, len(bsTypes[shape]))
+		if n := c.node(uint64(e.N)); n != nil && n.alive && !n.isLeader() {
+			s += " [not the leader: forwarded to its leader, or dropped if it knows none]"
+		}
+		return s
 	case evTransfer:
 		return fmt.Sprintf("transferLeader(%d -> %d)", e.N, e.A)
 	case evPropose:
